@@ -1,13 +1,13 @@
 (* C10, the last clause as ONE theorem: the closure of the proved re-spellings of a whole URL text - letter case of the
    scheme, an explicit default port, letter case of the host name, dropped path segments ("." , empty, "x/.."), a dropped
-   fragment, another IPv4 notation of the same address, the letter case of the hex digits of escapes in the query and the
+   fragment, another IPv4 notation of the same address, the letter case of the hex digits of escapes in path, query and
    fragment - applied any number of times, in any order and in either direction,
    relates only URLs that are both rejected with the same kind or parse to the same normalized form, scheme, host, port,
    path and query. *)
 From Coq Require Import List NArith ZArith Bool Lia Arith.
 From Wpull Require Import Model.UrlLib Model.Url Proofs.UrlPeProofs Proofs.UrlStrProofs Proofs.UrlPathProofs
   Proofs.UrlTotalProofs Proofs.UrlHostProofs Proofs.UrlNormProofs Proofs.UrlEquivProofs Proofs.UrlEquiv2Proofs
-  Proofs.UrlFragProofs Proofs.UrlEquiv3Proofs Proofs.UrlEscCaseProofs Proofs.UrlEscUrl.
+  Proofs.UrlFragProofs Proofs.UrlEquiv3Proofs Proofs.UrlEscCaseProofs Proofs.UrlEscUrl Proofs.UrlEscPath.
 Import ListNotations.
 Open Scope N_scope.
 
@@ -125,6 +125,12 @@ Inductive respell1 : str -> str -> Prop :=
     plain_text (sch ++ 58 :: [47; 47] ++ A ++ 47 :: P0 ++ 63 :: q ++ F) ->
     plain_text (sch ++ 58 :: [47; 47] ++ A ++ 47 :: P0 ++ 63 :: q' ++ F') ->
     respell1 (sch ++ 58 :: [47; 47] ++ A ++ 47 :: P0 ++ 63 :: q ++ F) (sch ++ 58 :: [47; 47] ++ A ++ 47 :: P0 ++ 63 :: q' ++ F')
+| rs_escape_path sch sc dport A P0 P0' T :
+    enc_high_ok enc -> scheme_text lower_o sch sc dport ->
+    memb 47 A = false -> memb 63 A = false -> memb 35 A = false ->
+    memb 63 P0 = false -> memb 35 P0 = false -> hexcase P0 P0' -> tail_ok T ->
+    plain_text (sch ++ 58 :: [47; 47] ++ A ++ 47 :: P0 ++ T) -> plain_text (sch ++ 58 :: [47; 47] ++ A ++ 47 :: P0' ++ T) ->
+    respell1 (sch ++ 58 :: [47; 47] ++ A ++ 47 :: P0 ++ T) (sch ++ 58 :: [47; 47] ++ A ++ 47 :: P0' ++ T)
 | rs_fragment sch sc dport (P f nf : str) :
     scheme_text lower_o sch sc dport -> memb 35 P = false -> enc [] = Some [] -> normalize_fragment enc f = Ok nf ->
     plain_text (sch ++ 58 :: P ++ 35 :: f) -> plain_text (sch ++ 58 :: P) ->
@@ -179,6 +185,14 @@ Proof.
     match goal with |- match parse ?x with _ => _ end => destruct (parse x) as [i|k] eqn:E1 end;
       match goal with |- match parse ?x with _ => _ end => destruct (parse x) as [i'|k'] eqn:E2 end; try contradiction; [|exact Th].
     rewrite (parse_ok_network _ _ _ _ _ H0 H12 E1), (parse_ok_network _ _ _ _ _ H0 H13 E2).
+    split; [reflexivity | intros _]. destruct Th as [A' [B [C [D [E [G _]]]]]]. repeat split; assumption.
+  - (* hex-digit case of escapes in the path *)
+    pose proof (parse_url_path_case enc lower_o idna_o ipv6_o int_o unq_o H sch sc dport A P0 P0' T
+                  H0 H1 H2 H3 H4 H5 H6 H7 H8 H9) as Th.
+    cbv zeta in Th. unfold same_url in Th. unfold same_norm.
+    match goal with |- match parse ?x with _ => _ end => destruct (parse x) as [i|k] eqn:E1 end;
+      match goal with |- match parse ?x with _ => _ end => destruct (parse x) as [i'|k'] eqn:E2 end; try contradiction; [|exact Th].
+    rewrite (parse_ok_network _ _ _ _ _ H0 H8 E1), (parse_ok_network _ _ _ _ _ H0 H9 E2).
     split; [reflexivity | intros _]. destruct Th as [A' [B [C [D [E [G _]]]]]]. repeat split; assumption.
   - (* dropped fragment *)
     pose proof (parse_url_fragment enc lower_o idna_o ipv6_o int_o unq_o sch sc dport P f nf H H0 H1 H2 H3 H4) as T.
